@@ -3,6 +3,7 @@ import io, json, re, warnings
 from common import codes, uncodes
 import tokutil
 import c01_gen as G
+import c01_deliver as D
 
 PID = 'C01'
 GENS = ['tok', 'kvser']
@@ -13,14 +14,19 @@ RULE = ("trees: a small exhaustive family (all leaves with name/value of length 
         "names; names/values over the 17-symbol alphabet of C02 + KV syntax characters + random Unicode scalars; 15% of "
         "trees have CR/LF in names and are parsed with newline_keys=True), as a single keyvalue or under Keyvalues.root, "
         "with indent in {TAB, 2 spaces, '', ' TAB'}, indent_braces in {True, False}, start_indent in 5 whitespace strings; "
-        "serialise() text compared character for character with the model, parse() of that text given as str / random "
-        "chunk list (with empty chunks) / io.StringIO compared with the model parse (real_name, value, child order, "
-        "line_num). documents: fixed corpus + generated flag documents + random lexeme sequences + character mutations "
+        "serialise() text compared character for character with the model, parse() of that text compared with the model "
+        "parse (real_name, value, child order, line_num) through 26 delivery forms (harness/c01_deliver.py): str; list / "
+        "tuple / deque / custom iterable (also with a .name) of chunks with empty chunks - parsed twice, must be unchanged; "
+        "generator, iter(list), one-shot iterator class, itertools.chain; io.StringIO at position 0, after read(k) of a "
+        "prefix, after readline() of a header, subclass with .name, half consumed, exhausted; real temp files opened with "
+        "newline='' and with default newline translation at position 0 / after read / after readline / exhausted; "
+        "io.TextIOWrapper over BytesIO - a file object is parsed from its CURRENT position: the model gets the chunks an "
+        "independent twin object yields. documents: fixed corpus + generated flag documents + random lexeme sequences + character mutations "
         "of serialised trees, under random parse options (flags mapping, newline_keys, newline_values, allow_escapes, "
         "single_line, single_block); result tree or (error id, argument, line) compared with the model. "
         "sessions: sequences of 2-7 API calls in one interpreter state (single_block parses that return early with a token "
-        "pushed back, parses abandoned by an error, direct Tokenizer call/peek/push_back use, serialise, round trips; str / "
-        "chunk list / file object), state renewed (all srctools modules re-imported) every 100 sessions; every call's result "
+        "pushed back, parses abandoned by an error, direct Tokenizer call/peek/push_back use, serialise, round trips; all delivery forms), "
+        "state renewed (all srctools modules re-imported) every 100 sessions; every call's result "
         "compared with the model (a pure function of the call) and every round trip checked; a failing round trip is "
         "re-run from a pristine state and the call sequence shrunk (ddmin). "
         "A case is non-trivial when it contains a character special to the format (quote, backslash, brace, bracket, "
@@ -158,8 +164,23 @@ def _wit_key(roots):
     return 'roundtrip'
 
 
-def property_on_impl(ctx, impl, roots, is_root, o, o2, rng, record=True):
-    """The property itself on the implementation. Returns (text or None, list of (key, what))."""
+def parse_delivered(impl, desc, text, po):
+    """Keyvalues.parse of `text` delivered in form `desc`. Returns (result, chunks the object yields, problem or None):
+    a re-iterable container is parsed twice and must be neither changed nor give a different result."""
+    src, chunks, fin = D.deliver(desc, text)
+    got = impl.parse(src, po)
+    problem = None
+    if desc['form'] in D.REITERABLE:
+        again = impl.parse(src, po)
+        if again != got:
+            problem = f'second parse of the same {desc["form"]} of chunks differs: {json.dumps(again, default=str)[:160]}'
+    problem = fin() or problem
+    return got, chunks, problem
+
+
+def property_on_impl(ctx, impl, roots, is_root, o, o2, rng, record=True, descs=None):
+    """The property itself on the implementation. Returns (text or None, list of (key, what)).
+    `descs`: the delivery forms to parse the text through (default: str + two random ones)."""
     K = impl.K
     fails = []
     case = {'roots': [G.enc(t) for t in roots], 'is_root': is_root, 'o': o, 'o2': o2}
@@ -184,12 +205,16 @@ def property_on_impl(ctx, impl, roots, is_root, o, o2, rng, record=True):
         names_ok = not any(c in n for t in roots for n in G.tree_names(t) for c in '\r\n')
         po = dict(DEFAULT_PO, nk=not names_ok)
         want = {'k': 'root', 'trees': roots}
-        for kind, src in G.sources(rng, text):
-            got = impl.parse(src, po)
+        if descs is None:
+            descs = [{'form': 'str'}, D.rand_desc(rng, roundtrip=True), D.rand_desc(rng, roundtrip=True)]
+        for desc in descs:
+            got, _, problem = parse_delivered(impl, desc, text, po)
             got.pop('lines', None)
-            if got != want:
-                fails.append((_wit_key(roots), f'parse(serialise(tree)) given as {kind} is not the tree: '
-                                               f'text {text[:120]!r} -> {json.dumps(got, default=str)[:200]}'))
+            if got != want or problem:
+                case['delivery'] = desc
+                fails.append((_wit_key(roots) if got != want else 'delivery-changed',
+                              f'parse(serialise(tree)) given as {desc} is not the tree: '
+                              f'text {text[:120]!r} -> {problem or json.dumps(got, default=str)[:200]}'))
                 break
         a, b = impl.toks_mod_nl(text), impl.toks_mod_nl(text2)
         if a != b:
@@ -253,7 +278,7 @@ def _flush(ctx, drv, reqs, meta):
     if not reqs:
         return
     replies = iter(drv.batch(reqs))
-    for tag, case, text, got in meta:
+    for tag, case, text, got, delivered in meta:
         if tag in ('ser', 'ser+parse'):
             m = next(replies)
             m_text = uncodes(m['r']) if 'r' in m else None
@@ -265,7 +290,7 @@ def _flush(ctx, drv, reqs, meta):
         m = model_view(next(replies))
         ctx.traces_vs_impl += 1
         g = dict(got)
-        if '[' in (text or '') or g.get('k') != 'root':
+        if '[' in (delivered or '') or g.get('k') != 'root':
             g.pop('lines', None)
             m.pop('lines', None)
         if g != m:
@@ -273,15 +298,14 @@ def _flush(ctx, drv, reqs, meta):
     del reqs[:], meta[:]
 
 
-def _parse_req(impl, po, text, kind, src):
-    """Model request for a parse: a str goes to the abstract tokenizer model on the text, a chunk list / file
-    object to the concrete chunk-cursor model TokC on exactly the chunks the implementation is given."""
-    req = dict(model_po(impl, po, text), op='parse', s=codes(text))
-    if kind == 'chunks':
-        req['chunks'] = [codes(c) for c in src]
-    elif kind == 'file':
-        req['chunks'] = [codes(c) for c in io.StringIO(text)]
-    return req
+def _parse_req(impl, po, text, chunks):
+    """Model request for a parse: a str goes to the abstract tokenizer model on the text, anything iterated
+    (chunk containers, iterators, file objects from their current position) to the concrete chunk-cursor model
+    TokC on exactly the chunks the object yields."""
+    if chunks is None:
+        return dict(model_po(impl, po, text), op='parse', s=codes(text))
+    joined = ''.join(chunks)
+    return dict(model_po(impl, po, joined), op='parse', s=codes(joined), chunks=[codes(c) for c in chunks])
 
 
 def small_cases():
@@ -333,15 +357,17 @@ def correspond(ctx, drivers):
         reqs.append({'op': 'ser', 'root': is_root, 'trees': case['roots'], 'indent': codes(o['indent']),
                      'braces': o['braces'], 'start': codes(o['start'])})
         if text is None:
-            meta.append(('ser', case, None, None))
+            meta.append(('ser', case, None, None, None))
             continue
         names_ok = not any(c in n for t in roots for n in G.tree_names(t) for c in '\r\n')
         po = dict(DEFAULT_PO, nk=not names_ok)
-        kind, src = G.sources(rng, text)[i % 3]
-        got = impl.parse(src, po)
-        ctx.count('parse-of-serialised:' + kind)
-        reqs.append(_parse_req(impl, po, text, kind, src))
-        meta.append(('ser+parse', case, text, got))
+        desc = D.rand_desc(rng, D.FORMS[i % len(D.FORMS)])
+        got, chunks, problem = parse_delivered(impl, desc, text, po)
+        if problem:
+            ctx.witness('delivery-changed', problem, dict(case, o2=o2, delivery=desc))
+        ctx.count('parse-of-serialised:' + desc['form'])
+        reqs.append(_parse_req(impl, po, text, chunks))
+        meta.append(('ser+parse', dict(case, delivery=desc), text, got, text if chunks is None else ''.join(chunks)))
         if text and (len(texts) < 4000 or rng.random() < 0.05):
             if len(texts) < 4000:
                 texts.append(text)
@@ -352,10 +378,13 @@ def correspond(ctx, drivers):
     _flush(ctx, drv, reqs, meta)
     # ---- documents
     for j, (d, po) in enumerate(gen_docs(ctx, impl, texts)):
-        kind, src = G.sources(rng, d)[j % 3]
-        got = impl.parse(src, po)
-        reqs.append(_parse_req(impl, po, d, kind, src))
-        meta.append(('doc', {'doc': d, 'po': po, 'src': kind}, d, got))
+        desc = D.rand_desc(rng, D.FORMS[j % len(D.FORMS)])
+        kind = desc['form']
+        got, chunks, problem = parse_delivered(impl, desc, d, po)
+        if problem:
+            ctx.disagree({'doc': d, 'po': po, 'delivery': desc}, problem, None, 'parse changed / consumed the chunk container')
+        reqs.append(_parse_req(impl, po, d, chunks))
+        meta.append(('doc', {'doc': d, 'po': po, 'delivery': desc}, d, got, d if chunks is None else ''.join(chunks)))
         ctx.case({'doc': d, 'po': po}, nontrivial=_special(d), sample_every=4999)
         if got['k'] == 'err':
             ctx.count('doc:err:%s' % (got['err'][0] if got['err'][0] != 1 else 'tok%s' % got['err'][1]))
@@ -397,37 +426,17 @@ def fresh_impl():
     return Impl()
 
 
-def _cut(text, cuts):
-    """Deterministic chunk list from cut positions (taken modulo len+1); an empty chunk after odd cuts."""
-    pos = sorted(set(c % (len(text) + 1) for c in cuts))
-    out, last = [], 0
-    for c in pos + [len(text)]:
-        out.append(text[last:c])
-        if c % 2:
-            out.append('')
-        last = c
-    return out
-
-
-def _source(text, src, cuts):
-    if src == 'chunks':
-        return _cut(text, cuts)
-    if src == 'file':
-        return io.StringIO(text)
-    return text
-
-
 def gen_session(rng, impl):
     calls = []
     for _ in range(rng.randrange(1, 7)):
         r = rng.random()
-        src, cuts = rng.choice(['str', 'chunks', 'file']), [rng.randrange(0, 200) for _ in range(rng.randrange(0, 5))]
         if r < 0.3:
             d = rng.choice(SB_DOCS) if rng.random() < 0.7 else G.flag_doc(rng, impl.escape_text)
-            calls.append({'op': 'parse', 'doc': d, 'po': dict(DEFAULT_PO, sb=True, sl=rng.random() < 0.2), 'src': src, 'cuts': cuts})
+            calls.append({'op': 'parse', 'doc': d, 'po': dict(DEFAULT_PO, sb=True, sl=rng.random() < 0.2),
+                          'delivery': D.rand_desc(rng)})
         elif r < 0.5:
             d = rng.choice(G.FIXED_DOCS) if rng.random() < 0.5 else G.mutate(rng, G.flag_doc(rng, impl.escape_text))
-            calls.append({'op': 'parse', 'doc': d, 'po': rand_po(rng), 'src': src, 'cuts': cuts})
+            calls.append({'op': 'parse', 'doc': d, 'po': rand_po(rng), 'delivery': D.rand_desc(rng)})
         elif r < 0.65:
             d = rng.choice(SB_DOCS + G.FIXED_DOCS) if rng.random() < 0.7 else G.lexeme_doc(rng, 8)
             calls.append({'op': 'tok', 'text': d, 'ops': [rng.choice(TOK_OPS) for _ in range(rng.randrange(1, 7))]})
@@ -436,10 +445,11 @@ def gen_session(rng, impl):
             calls.append({'op': 'ser', 'roots': [G.enc(t) for t in roots], 'is_root': is_root, 'o': o})
         else:
             roots, is_root, o, _ = gen_case(rng)
-            calls.append({'op': 'roundtrip', 'roots': [G.enc(t) for t in roots], 'is_root': is_root, 'o': o, 'src': src, 'cuts': cuts})
+            calls.append({'op': 'roundtrip', 'roots': [G.enc(t) for t in roots], 'is_root': is_root, 'o': o,
+                          'delivery': D.rand_desc(rng, roundtrip=True)})
     roots, is_root, o, _ = gen_case(rng)
     calls.append({'op': 'roundtrip', 'roots': [G.enc(t) for t in roots], 'is_root': is_root, 'o': o,
-                  'src': rng.choice(['str', 'chunks', 'file']), 'cuts': [rng.randrange(0, 200) for _ in range(3)]})
+                  'delivery': D.rand_desc(rng, roundtrip=True)})
     return calls
 
 
@@ -515,8 +525,10 @@ def run_call(impl, c):
     """One call on the implementation -> JSON-able result."""
     try:
         if c['op'] == 'parse':
-            r = impl.parse(_source(c['doc'], c['src'], c['cuts']), c['po'])
+            r, _, problem = parse_delivered(impl, c['delivery'], c['doc'], c['po'])
             r.pop('lines', None)
+            if problem:
+                r['problem'] = problem
             return r
         if c['op'] == 'tok':
             return {'obs': _tok_ops_impl(impl, c['text'], c['ops'])}
@@ -525,9 +537,9 @@ def run_call(impl, c):
         if c['op'] == 'ser':
             return {'text': text}
         names_ok = not any(ch in n for t in roots for n in G.tree_names(t) for ch in '\r\n')
-        got = impl.parse(_source(text, c['src'], c['cuts']), dict(DEFAULT_PO, nk=not names_ok))
+        got, _, problem = parse_delivered(impl, c['delivery'], text, dict(DEFAULT_PO, nk=not names_ok))
         got.pop('lines', None)
-        return {'text': text, 'got': got, 'ok': got == {'k': 'root', 'trees': roots}}
+        return {'text': text, 'got': got, 'ok': got == {'k': 'root', 'trees': roots} and not problem}
     except Exception as e:      # nothing here is expected to raise
         return {'k': 'exc', 'exc': f'{type(e).__name__}: {e}', 'ok': False}
 
@@ -544,7 +556,9 @@ def _session_fails(calls):
 
 def _model_reqs(impl, c):
     if c['op'] == 'parse':
-        return [dict(model_po(impl, c['po'], c['doc']), op='parse', s=codes(c['doc']))]
+        _, chunks, fin = D.deliver(c['delivery'], c['doc'])
+        fin()
+        return [_parse_req(impl, c['po'], c['doc'], chunks)]
     if c['op'] == 'tok':
         return [{'op': 'toks', 's': codes(c['text']), 'esc': True, 'fold': tokutil.fold_table(c['text'])}]
     return [{'op': 'ser', 'root': c['is_root'], 'trees': c['roots'], 'indent': codes(c['o']['indent']),
@@ -722,14 +736,15 @@ def search(ctx):
             if not inp['is_root'] and len(rs) != 1:
                 return False
             try:
-                _, f = property_on_impl(ctx, impl, rs, inp['is_root'], inp['o'], inp['o2'], rng, record=False)
+                _, f = property_on_impl(ctx, impl, rs, inp['is_root'], inp['o'], inp['o2'], rng, record=False,
+                                        descs=[inp['delivery']] if inp.get('delivery') else None)
             except Exception:
                 return False
             return any(k == key for k, _ in f)
         if fails(roots):
             small = shrink_roots(roots, fails)
             inp['shrunk'] = [G.enc(t) for t in small]
-            w['what'] += f' (shrunk to {small!r}, options {inp["o"]})'
+            w['what'] += f' (shrunk to {small!r}, options {inp["o"]}, delivery {inp.get("delivery")})'
 
 
 def replay(ctx, payload):
@@ -750,7 +765,8 @@ def replay(ctx, payload):
               payload.get('broken_obligations'), json.dumps(payload.get('disagreements', [])[:1], default=str)[:600])
         return False
     roots = [G.dec(t) for t in (inp.get('shrunk') or inp['roots'])]
-    text, fails = property_on_impl(ctx, impl, roots, inp['is_root'], inp['o'], inp['o2'], ctx.rng)
+    descs = ([inp['delivery']] if inp.get('delivery') else []) + D.all_descs(roundtrip=True)
+    text, fails = property_on_impl(ctx, impl, roots, inp['is_root'], inp['o'], inp['o2'], ctx.rng, descs=descs)
     print('trees', roots, 'options', inp['o'], 'text', repr(text))
     for k, what in fails:
         print('  FAILS', k, what)
@@ -766,7 +782,8 @@ def replay_known(ctx, finding):
         return None
     roots = [G.dec(t) for t in wit['roots']]
     _, fails = property_on_impl(ctx, impl, roots, wit.get('is_root', False), wit.get('o', {'indent': '\t', 'braces': True, 'start': ''}),
-                                wit.get('o2', {'indent': '', 'braces': False, 'start': ''}), ctx.rng, record=False)
+                                wit.get('o2', {'indent': '', 'braces': False, 'start': ''}), ctx.rng, record=False,
+                                descs=([wit['delivery']] if wit.get('delivery') else []) + D.all_descs(roundtrip=True))
     return any(k == finding['key'] for k, _ in fails)
 
 
